@@ -252,6 +252,16 @@ func (params *GossipSubParams) validate() error {
 		return fmt.Errorf("param HistoryGossip=%d must be less than or equal to HistoryLength=%d", params.HistoryGossip, params.HistoryLength)
 	}
 
+	// the message cache needs at least one history slot and a non-negative gossip window
+	if params.HistoryLength <= 0 || params.HistoryGossip < 0 {
+		return fmt.Errorf("param HistoryLength=%d must be positive and HistoryGossip=%d must not be negative", params.HistoryLength, params.HistoryGossip)
+	}
+
+	// the heartbeat uses these tick counts as divisors
+	if params.OpportunisticGraftTicks == 0 || params.DirectConnectTicks == 0 {
+		return fmt.Errorf("params OpportunisticGraftTicks=%d and DirectConnectTicks=%d must be positive", params.OpportunisticGraftTicks, params.DirectConnectTicks)
+	}
+
 	if !(params.Dscore <= params.Dhi) {
 		return fmt.Errorf("param Dscore=%d must be lower than or equal to  Dhi=%d", params.Dscore, params.Dhi)
 	}
